@@ -654,7 +654,7 @@ fn ob_mpmc_core_try_recv_batch_cap3s1m1() { step_try_recv_batch(3, 1, 1); }
 #[kani::unwind(8)]
 fn ob_mpmc_core_try_recv_batch_cap3s1m2() { step_try_recv_batch(3, 1, 2); }
 
-// @obligation id=mpmc.core.poll_recv_batch.cap1r0 props=C06,C01,C02 kind=step tier=thorough bound="logical capacity 1, 0 async receiver waiter(s) (WAITING or CANCELLED); head any usize; buffered values any u8; counts any <=2; max in 1..=2"
+// @obligation id=mpmc.core.poll_recv_batch.cap1r0 props=C06,C01,C02 kind=step tier=probe bound="logical capacity 1, 0 async receiver waiter(s) (WAITING or CANCELLED); head any usize; buffered values any u8; counts any <=2; max in 1..=2"
 #[kani::proof]
 #[kani::stub(std::thread::current::current, crate::verif_k_stubs::stub_thread_current)]
 #[kani::stub(parking_lot::RawMutex::lock_slow, crate::verif_k_stubs::stub_lock_slow)]
@@ -663,7 +663,7 @@ fn ob_mpmc_core_try_recv_batch_cap3s1m2() { step_try_recv_batch(3, 1, 2); }
 #[kani::unwind(8)]
 fn ob_mpmc_core_poll_recv_batch_cap1r0() { step_poll_recv_batch(1, 0, false); }
 
-// @obligation id=mpmc.core.poll_recv_batch.cap1r1re props=C06,C01,C02 kind=step tier=thorough bound="logical capacity 1, 1 async receiver waiter(s) (WAITING or CANCELLED); this future already queued (re-poll with a new waker); head any usize; buffered values any u8; counts any <=2; max in 1..=2"
+// @obligation id=mpmc.core.poll_recv_batch.cap1r1re props=C06,C01,C02 kind=step tier=probe bound="logical capacity 1, 1 async receiver waiter(s) (WAITING or CANCELLED); this future already queued (re-poll with a new waker); head any usize; buffered values any u8; counts any <=2; max in 1..=2"
 #[kani::proof]
 #[kani::stub(std::thread::current::current, crate::verif_k_stubs::stub_thread_current)]
 #[kani::stub(parking_lot::RawMutex::lock_slow, crate::verif_k_stubs::stub_lock_slow)]
@@ -672,7 +672,7 @@ fn ob_mpmc_core_poll_recv_batch_cap1r0() { step_poll_recv_batch(1, 0, false); }
 #[kani::unwind(8)]
 fn ob_mpmc_core_poll_recv_batch_cap1r1re() { step_poll_recv_batch(1, 1, true); }
 
-// @obligation id=mpmc.core.poll_recv_batch.cap3r1 props=C06,C01,C02 kind=step tier=thorough bound="logical capacity 3, 1 async receiver waiter(s) (WAITING or CANCELLED); head any usize; buffered values any u8; counts any <=2; max in 1..=2"
+// @obligation id=mpmc.core.poll_recv_batch.cap3r1 props=C06,C01,C02 kind=step tier=probe bound="logical capacity 3, 1 async receiver waiter(s) (WAITING or CANCELLED); head any usize; buffered values any u8; counts any <=2; max in 1..=2"
 #[kani::proof]
 #[kani::stub(std::thread::current::current, crate::verif_k_stubs::stub_thread_current)]
 #[kani::stub(parking_lot::RawMutex::lock_slow, crate::verif_k_stubs::stub_lock_slow)]
@@ -681,7 +681,7 @@ fn ob_mpmc_core_poll_recv_batch_cap1r1re() { step_poll_recv_batch(1, 1, true); }
 #[kani::unwind(8)]
 fn ob_mpmc_core_poll_recv_batch_cap3r1() { step_poll_recv_batch(3, 1, false); }
 
-// @obligation id=mpmc.core.poll_recv_batch.cap3r1re props=C06,C01,C02 kind=step tier=thorough bound="logical capacity 3, 1 async receiver waiter(s) (WAITING or CANCELLED); this future already queued (re-poll with a new waker); head any usize; buffered values any u8; counts any <=2; max in 1..=2"
+// @obligation id=mpmc.core.poll_recv_batch.cap3r1re props=C06,C01,C02 kind=step tier=probe bound="logical capacity 3, 1 async receiver waiter(s) (WAITING or CANCELLED); this future already queued (re-poll with a new waker); head any usize; buffered values any u8; counts any <=2; max in 1..=2"
 #[kani::proof]
 #[kani::stub(std::thread::current::current, crate::verif_k_stubs::stub_thread_current)]
 #[kani::stub(parking_lot::RawMutex::lock_slow, crate::verif_k_stubs::stub_lock_slow)]
